@@ -53,6 +53,8 @@ def snake_to_camel(name):
 
 
 def run(ctx):
+    from .C06 import serialized_key_rule
+    serialized_key_rule(ctx, "R5.element-written-under-its-key")
     # reading a column (as_array with a masked_value, as_item, serialize, ==) must not write into the column
     from ..lints import readers_leave_object
     readers_leave_object(ctx, BCIF, "R5.reading-leaves-column", 6)
